@@ -2,8 +2,9 @@
 # runs every thorough check sequentially (each capped), prints one line per property
 cd "$(dirname "$0")"
 ./setup.sh >/dev/null 2>&1
-for id in C04 C20 C10 C06 C17 C16 C15 C18 C12 C07 C14 C11 C09 C02 C03 C05 C08 C13 C01 C19; do
+IDS=${@:-C04 C20 C10 C06 C17 C16 C15 C18 C12 C07 C14 C11 C09 C02 C03 C05 C08 C13 C01 C19}
+for id in $IDS; do
   start=$(date +%s)
-  out=$(timeout 3000 ./check $id thorough 2>&1 | grep -v "^\[" | grep "^HELD\|^VIOLATED\|^INCONCLUSIVE\|^VIOLATION\|^KNOWN" | tail -4 | tr '\n' ' ')
+  out=$(timeout 7200 ./check $id thorough 2>&1 | grep -v "^\[" | grep "^HELD\|^VIOLATED\|^INCONCLUSIVE\|^VIOLATION\|^KNOWN" | tail -4 | tr '\n' ' ')
   echo "$id $(( $(date +%s) - start ))s: ${out:-TIMEOUT-or-no-output}"
 done
